@@ -300,7 +300,21 @@ func wantReplies(c *Case) int {
 func check05(c *Case, o *Obs, rec Rec) (vs []viol, inconclusive string) {
 	sc := &c.Script
 	pc := keyProto(c)
+	preCls := "" // metadata call the handler made before failing
+	switch {
+	case sc.Pre == "set" || len(sc.Hdr) > 0 && !sc.SendHdr:
+		preCls = ",after-SetHeader"
+	case sc.Pre == "send" || len(sc.Hdr) > 0:
+		preCls = ",after-SendHeader"
+	case sc.Pre == "trl" || len(sc.Trl) > 0:
+		preCls = ",after-SetTrailer"
+	}
 	add := func(obs, cls, what string) {
+		if preCls != "" {
+			// the metadata call is the structural class of these cases (codes
+			// and message shapes have their own cases without such a call)
+			cls = preCls[1:]
+		}
 		vs = append(vs, viol{pc + ":" + obs + ":" + cls, what})
 	}
 	gen := codeClass(sc.Code)
@@ -365,6 +379,14 @@ func check05(c *Case, o *Obs, rec Rec) (vs []viol, inconclusive string) {
 		var te struct {
 			Code *string `json:"code"`
 			Msg  *string `json:"msg"`
+		}
+		// Twirp spec: errors are JSON with a non-200 HTTP status (the exact
+		// status is not compared: larking documents the gRPC mapping)
+		if o.HTTP < 400 {
+			add("twirp-http-status", "error-with-success-status", fmt.Sprintf("Twirp error for code %d answered with HTTP %d", sc.Code, o.HTTP))
+		}
+		if mt := strings.TrimSpace(strings.SplitN(o.Hdr.Get("Content-Type"), ";", 2)[0]); mt != "application/json" {
+			add("twirp-content-type", "error-response", fmt.Sprintf("Twirp error response has Content-Type %+q, the spec requires application/json", o.Hdr.Get("Content-Type")))
 		}
 		if err := json.Unmarshal(o.Body, &te); err != nil || te.Code == nil {
 			add("twirp-body-undecodable", gen, fmt.Sprintf("Twirp error body is not a JSON object with a code: %+q; body %+q", fmt.Sprint(err), clip(string(o.Body), 120)))
@@ -592,7 +614,7 @@ func (g *c05Runner) exec(c *Case, label string) {
 		case c.Script.Code > 0:
 			cc = "code-in-range"
 		}
-		r.Distinct(fmt.Sprintf("%s/%s/%s/after=%d/%s/%s/details=%v/%s", protoFamily(c.Proto), c.Codec, c.Method, c.Script.Replies, cc, msgShape(c.Script.Msg)+sizeClass(c.Script.Msg), c.Script.Details, c.Kind))
+		r.Distinct(fmt.Sprintf("%s/%s/%s/after=%d/%s/%s/details=%v/%s", protoFamily(c.Proto), c.Codec, c.Method, c.Script.Replies, cc, msgShape(c.Script.Msg)+sizeClass(c.Script.Msg), c.Script.Details, c.Kind+"/pre="+c.Script.Pre+"/hdr="+fmt.Sprint(len(c.Script.Hdr) > 0, c.Script.SendHdr, len(c.Script.Trl) > 0)))
 	}
 	for _, v := range vs {
 		r.Violate(v.key, v.what, c)
@@ -606,7 +628,7 @@ func (g *c05Runner) exec(c *Case, label string) {
 
 // RunC05 is the status / error fidelity check.
 func RunC05(r *mon.Run) {
-	r.Rule = "a scripted handler behind a real Mux returns status (code, message, optional 2 details) before any reply or after 1 / 3 replies; one client per protocol observes the outcome: HTTP JSON/protobuf and Twirp (in-process and HTTP/1 socket), grpc-go over h2c, raw gRPC frames in-process and over h2c, gRPC-web binary/text (in-process and HTTP/1 socket), WebSocket (socket). Cases = (all 22 codes x 3 base messages) + (2-3 codes x every message of the message set: empty, ASCII, single bytes embedded in text, '%' at start/middle/end, multi-byte tails, 1 KiB, 70 KiB, 123/124-byte close-frame boundary, seeded random mixes of ASCII / '%' / control / multi-byte pieces), each with and without details, on every protocol x codec x method x reply-count variant, plus a small class where the call's deadline has expired before the handler returns. An execution is non-trivial when the scripted handler ran; distinct = (protocol, codec, method, replies before status, code class, message shape, details?)"
+	r.Rule = "a scripted handler behind a real Mux returns status (code, message, optional 2 details) before any reply or after 1 / 3 replies; one client per protocol observes the outcome: HTTP JSON/protobuf and Twirp (in-process and HTTP/1 socket), grpc-go over h2c, raw gRPC frames in-process and over h2c, gRPC-web binary/text (in-process and HTTP/1 socket), WebSocket (socket). Cases = (all 22 codes x 3 base messages) + (2-3 codes x every message of the message set: empty, ASCII, single bytes embedded in text, '%' at start/middle/end, multi-byte tails, 1 KiB, 70 KiB, 123/124-byte close-frame boundary, seeded random mixes of ASCII / '%' / control / multi-byte pieces), each with and without details, on every protocol x codec x method x reply-count variant, plus a class where the handler calls SetHeader / SendHeader / SetTrailer with custom metadata at entry or right before it returns the status, plus a small class where the call's deadline has expired before the handler returns. An execution is non-trivial when the scripted handler ran; distinct = (protocol, codec, method, replies before status, code class, message shape, details?)"
 	r.Floor = 150
 	env, err := newEnv()
 	if err != nil {
@@ -669,6 +691,40 @@ func RunC05(r *mon.Run) {
 						continue
 					}
 					one(code, m, det)
+				}
+			}
+		}
+	}
+
+	// the handler touches header / trailer metadata before it fails: at entry
+	// (before any reply) or right before returning the status (after the replies)
+	preCodes := []uint32{1, 5, 16, 17, 100}
+	if r.Thorough() {
+		preCodes = allCodes[1:]
+	}
+	custom := []KV{{K: "x-c05", V: [][]byte{[]byte("v1"), []byte("v 2")}}, {K: "x-c05-bin", V: [][]byte{{0, 0xff, 0xfb, '%'}}}}
+	for _, v := range c05Variants(r.Thorough()) {
+		for _, code := range preCodes {
+			for _, op := range []string{"set", "send", "trl"} {
+				for _, at := range []string{"entry", "before-return"} {
+					if at == "before-return" && v.replies == 0 {
+						continue // same point as "entry"
+					}
+					c := &Case{Kind: "C05", Proto: v.proto, Codec: v.codec, Method: v.method, Class: "metadata-" + op + "-at-" + at,
+						Script: Script{Code: code, Msg: "50% done ✓", Details: code%2 == 1, Replies: v.replies}}
+					if at == "before-return" {
+						c.Script.Pre = op
+					} else {
+						switch op {
+						case "set":
+							c.Script.Hdr = custom
+						case "send":
+							c.Script.Hdr, c.Script.SendHdr = custom, true
+						default:
+							c.Script.Trl = custom
+						}
+					}
+					g.exec(c, c.Class)
 				}
 			}
 		}
